@@ -100,10 +100,19 @@ Definition dest_of (d : D.dest_hdr) : destv :=
 
 Definition pf_ok (f : D.pf_form) : bool :=
   match f with D.PfAllProp | D.PfPropName => true | _ => false end.
+Definition pf_bad (f : D.pf_form) : bool := match f with D.PfBad => true | _ => false end.
+Definition dx_ok {A} (d : dx A) : bool := match d with DxOk _ => true | _ => false end.
+
+(** what DavServer's [pf] stands for: on PROPPATCH, whether DecodeXMLRequest of the
+    propertyupdate body fails ([PfBad]); otherwise the outcome of DecodePropFindRequest *)
+Definition pf_reads (r : D.request) (r' : ServerTotal.request) : Prop :=
+  if String.eqb (D.meth r) "PROPPATCH"
+  then dx_ok (decode_xml_request r' (um_propupdate 0 propupdate_zero)) = negb (pf_bad (D.pf r))
+  else is_some (decode_propfind_request r') = pf_ok (D.pf r).
 
 (** [r'] is a request of ServerTotal's model that the handler reads as DavServer's [r]:
-    same method, path and header texts; DavServer's [pf] is the outcome of
-    DecodePropFindRequest on it (a selector or the 400) *)
+    same method, path and header texts; DavServer's [pf] is what the handler reads from
+    the body ([pf_reads]) *)
 Record req_match (r : D.request) (r' : ServerTotal.request) : Prop := {
   rm_method : r_method r' = D.meth r;
   rm_path : r_path r' = D.rpath r;
@@ -111,28 +120,32 @@ Record req_match (r : D.request) (r' : ServerTotal.request) : Prop := {
   rm_overwrite : r_overwrite r' = D.h_overwrite r;
   rm_dest : r_dest r' = dest_of (D.h_dest r);
   rm_ctype : r_ctype_set r' = negb (String.eqb (D.h_ctype r) "");
-  rm_pf : is_some (decode_propfind_request r') = pf_ok (D.pf r)
+  rm_pf : pf_reads r r'
 }.
 
 (** a canonical translation: the PROPFIND body that DecodePropFindRequest reads as [pf] *)
 Definition propfind_doc (kids : list xtree) : xmlbody := XTree (XElem NS_DAV "propfind" [] kids).
 
-Definition req_of (r : D.request) : ServerTotal.request := {|
+Definition req_of (r : D.request) : ServerTotal.request :=
+  let pp := String.eqb (D.meth r) "PROPPATCH" in {|
   r_method := D.meth r; r_path := D.rpath r; r_depth := D.h_depth r; r_overwrite := D.h_overwrite r;
   r_dest := dest_of (D.h_dest r); r_ctype_set := negb (String.eqb (D.h_ctype r) "");
-  r_media := match D.pf r with D.PfPropName | D.PfNone => "application/xml" | _ => "" end;
+  r_media := if pp then (if pf_bad (D.pf r) then "" else "application/xml")
+             else match D.pf r with D.PfPropName | D.PfNone => "application/xml" | _ => "" end;
   r_media_err := false;
-  r_body_empty := match D.pf r with D.PfAllProp => true | _ => false end;
-  r_xml := match D.pf r with
-           | D.PfPropName => propfind_doc [XElem NS_DAV "propname" [] []]
-           | D.PfNone => propfind_doc []
-           | _ => XEmpty
-           end;
+  r_body_empty := if pp then false else match D.pf r with D.PfAllProp => true | _ => false end;
+  r_xml := if pp then XTree (XElem NS_DAV "propertyupdate" [] [])
+           else match D.pf r with
+                | D.PfPropName => propfind_doc [XElem NS_DAV "propname" [] []]
+                | D.PfNone => propfind_doc []
+                | _ => XEmpty
+                end;
   r_ical_ok := false; r_vcard_ok := false; r_url_ok := fun _ => true |}.
 
 Lemma req_of_match r : req_match r (req_of r).
 Proof.
-  split; try reflexivity. unfold req_of. destruct (D.pf r); vm_compute; reflexivity.
+  split; try reflexivity. unfold pf_reads, req_of.
+  destruct (String.eqb (D.meth r) "PROPPATCH"); destruct (D.pf r); vm_compute; reflexivity.
 Qed.
 
 (** ** the status codes of the file-server model are codes WriteHeader accepts *)
@@ -358,11 +371,12 @@ Section Agree2.
     destruct (String.eqb (D.h_depth r) "infinity"); reflexivity.
   Qed.
 
-  Lemma agree_propfind :
+  Lemma agree_propfind : String.eqb (D.meth r) "PROPPATCH" = false ->
     finish (handle_propfind (dav_backend env) r') = Resp (st (D.do_propfind root sb r)) [] /\
     fst (D.do_propfind root sb r) = sb.
   Proof.
-    unfold handle_propfind, D.do_propfind. pose proof (rm_pf _ _ M) as P.
+    intros NPP. unfold handle_propfind, D.do_propfind. pose proof (rm_pf _ _ M) as P.
+    unfold pf_reads in P. rewrite NPP in P.
     rewrite (rm_depth _ _ M), depth_agree.
     destruct (decode_propfind_request r') as [s|]; simpl in P.
     - destruct (D.pf r); try discriminate P.
@@ -377,6 +391,16 @@ Section Agree2.
         [rewrite DZ; destruct (negb (d =? 0) && fi_isdir (fi_of_node n)); simpl; auto
         |simpl; split; auto; apply finish_err_400_404; eapply stat_code; eauto].
     - destruct (D.pf r); try discriminate; simpl; auto.
+  Qed.
+
+  Lemma agree_proppatch : D.meth r = "PROPPATCH" ->
+    finish (handle_proppatch (dav_backend env) r') = Resp (st (D.do_proppatch sb r)) [] /\
+    fst (D.do_proppatch sb r) = sb.
+  Proof.
+    intros E. unfold handle_proppatch, D.do_proppatch. pose proof (rm_pf _ _ M) as P.
+    unfold pf_reads in P. rewrite E in P. change (String.eqb "PROPPATCH" "PROPPATCH") with true in P. cbv iota in P.
+    destruct (decode_xml_request r' (um_propupdate 0 propupdate_zero)); simpl in P;
+      destruct (D.pf r); try discriminate P; simpl; auto.
   Qed.
 
   Lemma overwrite_agree :
@@ -426,13 +450,13 @@ End Agree2.
 (** ** the theorem *)
 
 Theorem agrees_with_file_server_model root sb r r' :
-  req_match r r' -> D.meth r <> "PROPPATCH" ->
+  req_match r r' ->
   exists cs,
     ServerTotal.serve (CDav (local_env root sb r) r') = Resp (st (D.serve root sb r)) cs /\
     (cs = [] \/ exists k dst, cs = [Call k (D.rpath r) dst]) /\
     (cs = [] -> fst (D.serve root sb r) = sb).
 Proof.
-  intros M NP. cbn [ServerTotal.serve]. unfold serve_dav. cbn [fe_has_fs local_env negb].
+  intros M. cbn [ServerTotal.serve]. unfold serve_dav. cbn [fe_has_fs local_env negb].
   rewrite <- (rm_path _ _ M).
   unfold D.serve, internal_handle. rewrite (rm_method _ _ M).
   destruct (String.eqb (D.meth r) "OPTIONS") eqn:E1.
@@ -452,9 +476,14 @@ Proof.
     rewrite (rm_method _ _ M), E5 in A.
     eexists. split; [exact A|]. split; [right; eauto|discriminate]. }
   destruct (String.eqb (D.meth r) "PROPFIND") eqn:E6.
-  { destruct (agree_propfind root sb r r' M) as [A B]. exists []. rewrite A. auto. }
+  { assert (NPP : String.eqb (D.meth r) "PROPPATCH" = false)
+      by (apply String.eqb_eq in E6; rewrite E6; reflexivity).
+    destruct (agree_propfind root sb r r' M NPP) as [A B]. exists []. rewrite A. auto. }
   destruct (String.eqb (D.meth r) "PROPPATCH") eqn:E7.
-  { apply String.eqb_eq in E7. contradiction. }
+  { apply String.eqb_eq in E7. destruct (agree_proppatch root sb r r' M E7) as [A B].
+    rewrite E7. replace (String.eqb "PROPPATCH" "MKCOL") with false by reflexivity.
+    replace (String.eqb "PROPPATCH" "COPY" || String.eqb "PROPPATCH" "MOVE") with false by reflexivity.
+    exists []. rewrite A. auto. }
   destruct (String.eqb (D.meth r) "MKCOL") eqn:E8.
   { apply String.eqb_eq in E8. destruct (agree_mkcol root sb r r' M E8) as (cs & A & B & C).
     unfold serve_dav in A. cbn [fe_has_fs local_env negb] in A. rewrite internal_mkcol in A by (rewrite (rm_method _ _ M); exact E8).
@@ -467,27 +496,28 @@ Proof.
 Qed.
 
 (** the canonical translation, and the consequences asked for *)
-Corollary agrees_canonical root sb r : D.meth r <> "PROPPATCH" ->
+Corollary agrees_canonical root sb r :
   exists cs,
     ServerTotal.serve (CDav (local_env root sb r) (req_of r)) = Resp (st (D.serve root sb r)) cs /\
     (cs = [] -> fst (D.serve root sb r) = sb).
 Proof.
-  intros NP. destruct (agrees_with_file_server_model root sb r (req_of r) (req_of_match r) NP) as (cs & A & _ & C).
+  destruct (agrees_with_file_server_model root sb r (req_of r) (req_of_match r)) as (cs & A & _ & C).
   exists cs. auto.
 Qed.
 
 Corollary local_env_never_panics root sb r r' :
-  req_match r r' -> D.meth r <> "PROPPATCH" -> ServerTotal.serve (CDav (local_env root sb r) r') <> Panicked.
+  req_match r r' -> ServerTotal.serve (CDav (local_env root sb r) r') <> Panicked.
 Proof.
-  intros M NP. destruct (agrees_with_file_server_model root sb r r' M NP) as (cs & A & _). rewrite A. discriminate.
+  intros M. destruct (agrees_with_file_server_model root sb r r' M) as (cs & A & _). rewrite A. discriminate.
 Qed.
 
 (** PROPPATCH: this proof found that DavServer.serve had no case for it and answered 405, where
     internal/server.go decodes the body and asks the backend, which refuses with 403 (or the
     decoding fails: 400) - and so does the real handler over a LocalFileSystem.  DavServer.v has
     since been given that case ([D.do_proppatch]; [D.pf r = PfBad] stands for "the
-    propertyupdate body is not decodable"); the former witness now shows agreement.  The
-    exclusion of PROPPATCH in the theorem above is still to be lifted. *)
+    propertyupdate body is not decodable", which [pf_reads] ties to [decode_xml_request]); the
+    theorem above covers PROPPATCH like every other method, the former witness is kept as an
+    example. *)
 Definition proppatch_req : D.request :=
   {| D.meth := "PROPPATCH"; D.rpath := "/a"; D.h_depth := ""; D.h_overwrite := ""; D.h_dest := D.DestAbsent;
      D.h_ctype := "application/xml"; D.h_if_match := ""; D.h_if_none_match := ""; D.d_if_match := None;
